@@ -18,7 +18,15 @@ CFG = {
              "pass <= 256, exponent 31 <= 511 so exp never becomes 32; multiplication by two_powi proved exact in the "
              "normal range; the zero f32::max returns on a -0.0/+0.0 tie proved irrelevant); n1/n2/n4/n5/n6/n10::from_f32 and s8::from_uf32 stay <= MAX for every pattern and "
              "B5G6R5, B5G5R5A1, B4G4R4A4, A4B4G4R4, R10G10B10A2, R8G8B8A8_SNORM encode every pixel to exactly the "
-             "field packing; (4) the only data-dependent loop of the block encoders (bcn_util::refine_endpoints) runs at "
+             "field packing; (3c) s16::from_uf32, the one quantiser that computes in binary64 "
+             "((x.min(1.0) as f64 * 65534.0 + 0.5) as u16), on binary32 bit patterns with a software binary64 "
+             "(ConvF64.lean: exact widening, one correctly rounded multiplication and addition, saturating cast): for "
+             "EVERY pattern norm + 1 does not overflow u16 and the code fits 16 bits; the binary64 evaluation is "
+             "exact (24 x 16 bit product <= 40 bits, sum with 0.5 <= 53 bits, and below 2^-53 the rounded sum stays "
+             "under 0.75 so the cast is 0 like the exact floor): norm = floor(clamp01(v)*65534 + 1/2), NaN and "
+             "everything >= 1 incl. +inf give 65534, negatives, -0 and -inf give 0, hence the stored code is C12's "
+             "Quant.sencode 16 of the value, within half a SNORM16 step of the clamped input; R16_SNORM, R16G16_SNORM, "
+             "R16G16B16A16_SNORM encode every pixel to exactly the 16-bit field packing; (4) the only data-dependent loop of the block encoders (bcn_util::refine_endpoints) runs at "
              "most max_iter <= 10 times at every quality, whatever the float comparison does; (5) empty images give "
              "Ok and zero bytes in every family (incl. the repaired bi-planar path) even with a writer that accepts "
              "nothing. EXPLORED, not proved: panic- and hang-freedom of the float bodies of the BC1/BC4/BC7 block "
@@ -32,9 +40,11 @@ CFG = {
             "the generated cases; for the abstract (extended-real) quantiser theorems binary32/binary64 rounding "
             "being monotone and exact on the integers and half-integers named there - discharged for every binary32 "
             "quantiser by the bit-level theorems (quantiser_range_shared_exp, quantiser_range_unorm_bits, "
-            "packed_formats_fit_bits), still assumed for s16::from_uf32 (binary64); for the bit-level theorems that "
-            "the compiled code evaluates f32 `*`, `+`, `min`, `max`, `as uN` as IEEE-754 binary32 operations "
-            "(ConvF32.lean; no FMA contraction, no flush-to-zero), which the S/U cases compare on bit patterns; "
+            "packed_formats_fit_bits) and for the binary64 quantiser s16::from_uf32 by quantiser_range_snorm16_bits / "
+            "s16_from_uf32_exact (no float quantiser of formats.rs is left with a rounding hypothesis); for the "
+            "bit-level theorems that the compiled code evaluates f32 `*`, `+`, `min`, `max`, `as uN`, `as f64` and f64 "
+            "`*`, `+`, `as u16` as IEEE-754 binary32 / binary64 operations (ConvF32.lean, ConvF64.lean; no FMA "
+            "contraction, no flush-to-zero, no excess precision), which the S/U/W cases compare on bit patterns; "
             "std's write_all contract.",
     "profiles": ["release", "checked"],
     "level": "proof",
@@ -60,7 +70,12 @@ CFG = {
             "96..144 x 15 boundary fractions x 10 partner channels, 12 000 (thorough 400 000) biased PRNG triples; "
             "(f3) U cases: bit patterns into 6 packed UNORM/SNORM8 formats against the bit-level quantisers - 28 "
             "specials, the rounding boundary (k+0.5)/MAX +-2 ulp of every code k, 2 500 (thorough 60 000) PRNG "
-            "pixels per format; (g) PRNG over the whole quantifier. Every f32 case with "
+            "pixels per format; (f4) W cases: bit patterns into R16_SNORM, R16G16_SNORM, R16G16B16A16_SNORM against "
+            "the binary64 model of s16::from_uf32 - 60 specials (NaN payloads of both signs, +-inf, zeros, subnormals, "
+            "+-1 and +-0.5 +-2 ulp, the exact ties 0.25/0.75 +-1 ulp, 2^-53 region), every exponent field x 6 fractions (both signs), the rounding "
+            "boundary (k+0.5)/65534 +-2 ulp of ~670 codes k (first/last 40, powers of two, every 131st; thorough: every "
+            "17th and every code once), 2 500 (thorough 60 000) PRNG pixels per format; "
+            "(g) PRNG over the whole quantifier. Every f32 case with "
             "non-ordinary content is run a second time with ordinary content and must give the same kind and "
             "length. non-trivial = result ok / err Io / px (bytes produced or a fault propagated); distinct = "
             "distinct case lines.",
@@ -76,7 +91,9 @@ CFG = {
                      "encoder.rs size multiple; bi_planar.rs size check; color/formats.rs from_f32 quantisers; "
                      "bcn_util.rs refine_endpoints loop; bc.rs max_iter tables; namespaces SharedExp and QuantBits: "
                      "rgb9995f::from_f32, util::clamp_0_max, util::two_powi, n1..n10::from_f32, s8::from_uf32 and six "
-                     "universal! closures of uncompressed.rs on bit patterns), ConvF32.lean (software binary32), "
+                     "universal! closures of uncompressed.rs on bit patterns), EncTotal64.lean (s16::from_uf32 on bit "
+                     "patterns, R16/R16G16/R16G16B16A16_SNORM packing), ConvF32.lean (software binary32), ConvF64.lean "
+                     "(software binary64: widening, *, +, as u16), "
                      "EncLen.lean (writer loops); not "
                      "modelled: float bodies of bc1.rs/bc4.rs/bc7.rs/bcn_util.rs, dithering, pixel readers"],
 }
@@ -86,11 +103,31 @@ def nontrivial(c, r):
     return r.startswith("ok ") or r.startswith("err Io") or r.startswith("px ")
 
 
+def _f32_class(b):
+    """class of a binary32 pattern with respect to s16::from_uf32 (first channel of a W case)"""
+    e, f, neg = (b >> 23) & 0xFF, b & 0x7FFFFF, b >> 31
+    if e == 255:
+        return "nan" if f else ("-inf" if neg else "+inf")
+    if e == 0 and f == 0:
+        return "-0" if neg else "+0"
+    if neg:
+        return "negative"
+    if e == 0:
+        return "subnormal"
+    if b < 0x24800000:
+        return "below 2^-53 (rounded sum)"
+    if b < 0x3F800000:
+        return "(0,1)"
+    return "1.0" if b == 0x3F800000 else "above 1"
+
+
 def classify(c, r):
     t = c.split()
     res = " ".join(r.split(" ")[:-1]) if r.split(" ")[0] in ("ok", "err") else r.split(" ")[0]
     if t[0] == "Q":
         return f"Q {res}"
+    if t[0] == "W":
+        return f"W {_f32_class(int(t[2]))} -> {res}"
     try:
         fam = ("bc" if t[2].startswith("BC") and not t[2].startswith("BC6") else
                "noenc" if t[2].startswith("ASTC") or t[2].startswith("BC6") else
